@@ -370,6 +370,74 @@ fn many_users(st: &mut Stats, seed: u64) {
     }
 }
 
+/// A registry of tens of thousands of ids: whatever rare coincidence the set's hashing / equality
+/// has (a lookup that takes a new id for a known one), one insertion in a few thousand meets it.
+/// Only counts are compared (ids registered in the serialized master key vs keys issued); the ids
+/// of a sample of keys are then looked up and the keys refreshed.
+fn registry_stress(st: &mut Stats, seed: u64, n: usize) {
+    let cc = Covercrypt::default();
+    let Some((mut msk, _)) = call(|| cc.setup()).ok() else { return };
+    let _ = msk.access_structure.add_anarchy("D".into());
+    let _ = msk.access_structure.add_attribute(QualifiedAttribute::new("D", "A"), hint(false), None);
+    if call(|| cc.update_msk(&mut msk)).ok().is_none() {
+        return;
+    }
+    let ap = AccessPolicy::parse("D::A").unwrap();
+    let mut sample: Vec<UserSecretKey> = vec![];
+    let mut ids: BTreeSet<Vec<Vec<u8>>> = BTreeSet::new();
+    for i in 0..n {
+        match call(|| cc.generate_user_secret_key(&mut msk, &ap)) {
+            Out::Ok(u) => {
+                if let Some(Ok(w)) = ser(&u).ok().map(|b| WUsk::parse(&b)) {
+                    ids.insert(w.id);
+                }
+                if i % 64 == 0 {
+                    sample.push(u);
+                }
+            }
+            o => {
+                fail(st, "keygen-fails", format!("user {i} of a large registry: {}", o.describe()), seed);
+                return;
+            }
+        }
+    }
+    st.add("registry_stress_keys_issued", n as u64);
+    let Some(Ok(mw)) = ser(&msk).ok().map(|b| WMsk::parse(&b)) else {
+        fail(st, "wire-reader-rejects-msk", "large registry".into(), seed);
+        return;
+    };
+    st.bump("relations_checked");
+    if ids.len() != n {
+        fail(st, "duplicate-id", format!("{} distinct ids among {n} issued keys", ids.len()), seed);
+        return;
+    }
+    let registered: BTreeSet<Vec<Vec<u8>>> = mw.users.iter().cloned().collect();
+    if registered.len() != n || registered != ids {
+        let missing = ids.difference(&registered).count();
+        fail(st, "registered-users-count:large-registry", format!("{} ids registered for {n} issued keys ({missing} issued ids are missing)", registered.len()), seed);
+        return;
+    }
+    // the copy read back from bytes registers the same ids
+    if let Some(m2) = ser(&msk).ok().and_then(|b| de::<MasterSecretKey>(&b).ok()) {
+        if let Some(Ok(w2)) = ser(&m2).ok().map(|b| WMsk::parse(&b)) {
+            st.bump("relations_checked");
+            if w2.users.iter().cloned().collect::<BTreeSet<_>>() != ids {
+                fail(st, "registered-users-count:large-registry-roundtrip", format!("{} ids after a round trip of a master key with {n} users", w2.users.len()), seed);
+                return;
+            }
+        }
+        msk = m2;
+    }
+    for (i, u) in sample.iter_mut().enumerate() {
+        st.bump("relations_checked");
+        if let o @ (Out::Err(_) | Out::Panic(_)) = call(|| cc.refresh_usk(&mut msk, u, i % 2 == 0)) {
+            fail(st, "refresh-of-issued-key-fails", format!("key {} of a registry of {n}: {}", i * 64, o.describe()), seed);
+            return;
+        }
+    }
+    st.shapes.insert(fnv(b"large-registry"));
+}
+
 pub fn run(tier: &str, seed: u64, threads: usize) -> Stats {
     let n: u64 = if tier == "thorough" { 4000 } else { 320 };
     let max_users = if tier == "thorough" { 60 } else { 24 };
@@ -388,6 +456,16 @@ pub fn run(tier: &str, seed: u64, threads: usize) -> Stats {
                 }
                 history(seed.wrapping_mul(7919).wrapping_add(i.wrapping_mul(0x9E37_79B9_7F4A_7C15)), &mut st, max_users);
             }
+            total.lock().unwrap().merge(st);
+        }));
+    }
+    // large registries, next to the histories
+    let (n_reg, reg_size) = if tier == "thorough" { (8u64, 40_000usize) } else { (2, 20_000) };
+    for r in 0..n_reg {
+        let total = total.clone();
+        hs.push(std::thread::spawn(move || {
+            let mut st = Stats::default();
+            registry_stress(&mut st, seed.wrapping_add(r), reg_size);
             total.lock().unwrap().merge(st);
         }));
     }
